@@ -54,15 +54,28 @@ func VerifC11Print() {
 	op := zzverif.Choose("op", 4)
 	zzverif.Terminates(3000)
 	var rcol, rrow int
+	// the text arrives as one segment or split into two at a free cluster boundary
+	segs := []Segment{{Text: text}}
+	if chars := Characters(text); len(chars) > 1 && !strings.Contains(text, "\t") && zzverif.Bool("twoSegments") {
+		k := 1 + zzverif.Choose("split", 2)
+		if k >= len(chars) {
+			k = len(chars) - 1
+		}
+		first := ""
+		for _, c := range chars[:k] {
+			first += c.Grapheme
+		}
+		segs = []Segment{{Text: first}, {Text: text[len(first):], Style: Style{Attribute: AttrBold}}}
+	}
 	switch op {
 	case 0:
-		rcol, rrow = win.Print(Segment{Text: text})
+		rcol, rrow = win.Print(segs...)
 	case 1:
-		win.PrintTruncate(0, Segment{Text: text})
+		win.PrintTruncate(0, segs...)
 	case 2:
-		rcol, rrow = win.Wrap(Segment{Text: text})
+		rcol, rrow = win.Wrap(segs...)
 	case 3:
-		win.Println(0, Segment{Text: text})
+		win.Println(0, segs...)
 	}
 	inside := true
 	whole := true
